@@ -57,6 +57,16 @@ package middlewares
 //@   at-call fiber.Ctx.Locals {C02,C06} [installs-the-wrapper] when len($2) > 0 :: requires $1 == iface("body-reader") && len($2) == 1 && $2[0] == result("dynamic", 0)
 //@ func VerifyMD5Body$1
 //@   at-call? fiber.Ctx.Locals {C02,C06} [body-reader-only-through-wrapBodyReader] requires !($1 == iface("body-reader") && len($2) > 0)
+// C06: a request that declares a Content-MD5 goes on to the handlers only with the check in place — the hashing reader
+// installed for a streamed upload (whatever other checksums the request carries), the digest of the buffered body
+// compared otherwise
+//@   at-call fiber.Ctx.Next {C06} [a-declared-md5-is-checked-before-the-request-goes-on] when ctx.Get("Content-Md5") != "" :: \
+//@        requires (utils.IsBigDataAction(ctx) ==> called("middlewares.wrapBodyReader") && err == nil) \
+//@        && (!utils.IsBigDataAction(ctx) ==> called("utils.Base64SumString") && result("utils.Base64SumString", 0) == ctx.Get("Content-Md5"))
+// the reader installed is the MD5 hashing reader over the reader handed in, with the declared digest
+//@ func VerifyMD5Body$1$1
+//@   at-call utils.NewHashReader {C06} [the-md5-reader-wraps-the-installed-reader-with-the-declared-digest] requires $0 == in0 && $1 == incomingSum && $2 == utils.HashTypeMd5
+//@   at-return {C06} [the-md5-reader-is-what-gets-installed] ensures called("utils.NewHashReader") && ret0 == iface(result("utils.NewHashReader", 0))
 //@ func VerifyV4Signature$1
 //@   at-call? fiber.Ctx.Locals {C02,C06} [body-reader-only-through-wrapBodyReader] requires !($1 == iface("body-reader") && len($2) > 0)
 //@ func VerifyPresignedV4Signature$1
